@@ -741,6 +741,7 @@ class ASTString(ASTTemplate):
         else:
             body = child_sep.join([self.visit(x) for x in node.children])
         if self._in_join_body(node) and node.op in [
+            AGGREGATE,
             CALC,
             DROP,
             FILTER,
